@@ -6,6 +6,7 @@ CONSTANTS
   Nesting = TRUE
   TaskAllow = FALSE
   AtomicLaunch = TRUE
+  CondErr = FALSE
   ErrFirst = TRUE
   HookKinds = {"none"}
 SPECIFICATION Spec
